@@ -383,3 +383,111 @@ Qed.
 Lemma profile_roundtrip_refuted :
   exists e, guard e = true /\ load_profile (profile_text [e]) <> Some [e].
 Proof. exists (mkEntry [13; 97] [98] [99] [[100]] 0 0). split; [reflexivity | vm_compute; discriminate]. Qed.
+
+(* ------------------------------------------------------------------ what ParseMountEntry returns meets the guard *)
+
+Lemma fields_aux_nonempty : forall s cur t, In t (fields_aux cur s) -> t <> [].
+Proof.
+  induction s as [|c s IH]; intros cur t H; cbn [fields_aux] in H.
+  - destruct cur as [|x cur]; [destruct H|]. destruct H as [<- | []].
+    intro E. apply (f_equal (@rev N)) in E. rewrite rev_involutive in E. discriminate.
+  - destruct (is_blank c).
+    + destruct cur as [|x cur]; [eapply IH; exact H|].
+      destruct H as [<- | H]; [|eapply IH; exact H].
+      intro E. apply (f_equal (@rev N)) in E. rewrite rev_involutive in E. discriminate.
+    + eapply IH; exact H.
+Qed.
+
+Lemma drop_comment_In : forall fs t, In t (drop_comment fs) -> In t fs /\ starts_hash t = false.
+Proof.
+  induction fs as [|f fs IH]; intros t H; [destruct H|]. cbn [drop_comment] in H.
+  destruct (starts_hash f) eqn:E; [destruct H|]. destruct H as [<- | H]; [auto with datatypes|].
+  destruct (IH t H). auto with datatypes.
+Qed.
+
+Lemma esc_code_not_hash : forall d1 d2 d3 b, esc_code d1 d2 d3 = Some b -> (b =? 35) = false.
+Proof.
+  intros d1 d2 d3 b. unfold esc_code.
+  destruct ((d1 =? 48) && (d2 =? 52) && (d3 =? 48)); [intro H; inversion H; reflexivity|].
+  destruct ((d1 =? 48) && (d2 =? 49) && (d3 =? 49)); [intro H; inversion H; reflexivity|].
+  destruct ((d1 =? 48) && (d2 =? 49) && (d3 =? 50)); [intro H; inversion H; reflexivity|].
+  destruct ((d1 =? 49) && (d2 =? 51) && (d3 =? 52)); [intro H; inversion H; reflexivity | discriminate].
+Qed.
+
+Lemma unescape_token : forall t, t <> [] -> starts_hash t = false -> field_ok (unescape t) = true.
+Proof.
+  intros [|c r] Hne Hh; [congruence|]. cbn [starts_hash] in Hh. unfold field_ok. cbn [unescape].
+  destruct (c =? 92) eqn:E.
+  - destruct r as [|d1 [|d2 [|d3 r']]]; try (cbn; rewrite Hh; reflexivity).
+    destruct (esc_code d1 d2 d3) as [b|] eqn:EC; [|cbn; rewrite Hh; reflexivity].
+    cbn. rewrite (esc_code_not_hash _ _ _ _ EC). reflexivity.
+  - cbn. rewrite Hh. reflexivity.
+Qed.
+
+Lemma join_split : forall s, join 44 (split_on 44 s) = s.
+Proof.
+  induction s as [|c s IH]; [reflexivity|]. cbn [split_on].
+  destruct (c =? 44) eqn:E.
+  - apply N.eqb_eq in E. subst c. destruct (split_on 44 s) as [|p ps] eqn:S; [exfalso; eapply split_on_nonempty; exact S|].
+    change (join 44 ([] :: p :: ps)) with ([] ++ 44 :: join 44 (p :: ps)). rewrite IH. reflexivity.
+  - destruct (split_on 44 s) as [|p ps] eqn:S; [exfalso; eapply split_on_nonempty; exact S|].
+    destruct ps as [|q qs].
+    + cbn [join] in *. rewrite IH. reflexivity.
+    + change (join 44 ((c :: p) :: q :: qs)) with ((c :: p) ++ 44 :: join 44 (q :: qs)).
+      change (join 44 (p :: q :: qs)) with (p ++ 44 :: join 44 (q :: qs)) in IH. cbn [app]. rewrite IH. reflexivity.
+Qed.
+
+Lemma split_no_comma : forall s, forallb no_comma (split_on 44 s) = true.
+Proof.
+  induction s as [|c s IH]; [reflexivity|]. cbn [split_on].
+  destruct (c =? 44) eqn:E; [cbn [forallb]; rewrite IH; reflexivity|].
+  destruct (split_on 44 s) as [|p ps]; [cbn; rewrite E; reflexivity|].
+  cbn [forallb] in *. apply andb_true_iff in IH as [H1 H2]. rewrite H2, andb_true_r.
+  unfold no_comma in *. cbn [forallb]. rewrite E, H1. reflexivity.
+Qed.
+
+Lemma atoi_in_int : forall f z, atoi f = Some z -> in_int z = true.
+Proof.
+  intros f z. unfold atoi. destruct f as [|c r]; [discriminate|].
+  assert (A : forall neg d, atoi_digits neg d = Some z -> in_int z = true).
+  { intros neg d. unfold atoi_digits. destruct (undec d); [|discriminate].
+    destruct (in_int (if neg then (- Z.of_N n)%Z else Z.of_N n)) eqn:I; [|discriminate]. intro H; inversion H; subst. exact I. }
+  destruct (c =? 45); [apply A|]. destruct (c =? 43); apply A.
+Qed.
+
+(* every entry ParseMountEntry returns from a line with at least four fields meets the guard ... *)
+Theorem parsed_meets_guard : forall s e, parse_entry s = Some e -> e_opts e <> [] -> guard e = true.
+Proof.
+  intros s e H Ho. unfold parse_entry in H.
+  assert (T : forall t, In t (drop_comment (fields s)) -> field_ok (unescape t) = true).
+  { intros t Ht. apply drop_comment_In in Ht as [Ht Hh]. apply unescape_token; [|exact Hh].
+    eapply fields_aux_nonempty. exact Ht. }
+  assert (G : forall n d t o fz pz, field_ok (unescape n) = true -> field_ok (unescape d) = true -> field_ok (unescape t) = true ->
+              field_ok (unescape o) = true -> in_int fz = true -> in_int pz = true ->
+              guard (mkEntry (unescape n) (unescape d) (unescape t) (split_on 44 (unescape o)) fz pz) = true).
+  { intros n d t o fz pz H1 H2 H3 H4 H5 H6. unfold guard. cbn [e_name e_dir e_type e_opts e_freq e_pass].
+    rewrite H1, H2, H3, join_split, H4, split_no_comma, H5, H6.
+    destruct (split_on 44 (unescape o)) eqn:S; [exfalso; eapply split_on_nonempty; exact S | reflexivity]. }
+  destruct (drop_comment (fields s)) as [|n [|d [|t [|o [|f [|p [|x r]]]]]]]; try discriminate.
+  - inversion H; subst. cbn in Ho. congruence.
+  - inversion H; subst. apply G; try reflexivity; apply T; cbn; auto.
+  - destruct (atoi f) as [fz|] eqn:F; [|discriminate]. inversion H; subst.
+    apply G; try reflexivity; try (apply T; cbn; auto). eapply atoi_in_int; exact F.
+  - destruct (atoi f) as [fz|] eqn:F; [|discriminate]. destruct (atoi p) as [pz|] eqn:P; [|discriminate]. inversion H; subst.
+    apply G; try (apply T; cbn; auto); eapply atoi_in_int; eassumption.
+Qed.
+
+(* ... hence whatever was read from a profile line with options is written back and read again unchanged *)
+Theorem loaded_entry_roundtrip : forall s e, parse_entry s = Some e -> e_opts e <> [] -> parse_entry (entry_string e) = Some e.
+Proof. intros s e H Ho. apply codec_roundtrip. eapply parsed_meets_guard; eassumption. Qed.
+
+(* a three field line is accepted with no options and comes back with the option defaults *)
+Lemma three_field_line_refuted : exists s e, parse_entry s = Some e /\ parse_entry (entry_string e) <> Some e.
+Proof. exists [97; 32; 98; 32; 99], (mkEntry [97] [98] [99] [] 0 0). split; [reflexivity | vm_compute; discriminate]. Qed.
+
+(* the bind entries planWritableMimic records have an empty type: written as none, read back as none *)
+Lemma empty_type_refuted :
+  exists e, e_type e = [] /\ parse_entry (entry_string e) = Some (mkEntry (e_name e) (e_dir e) none_lit (e_opts e) (e_freq e) (e_pass e)).
+Proof.
+  exists (mkEntry [47; 97; 47; 98] [47; 97; 47; 98] [] [[114; 98; 105; 110; 100]] 0 0). split; [reflexivity | vm_compute; reflexivity].
+Qed.
